@@ -56,6 +56,34 @@ nix::DataType dtOf(const std::string &t) {
 }
 unsigned counter = 0;
 
+nix::Variant variantOf(const std::string &tok) {
+    size_t p = tok.find(':');
+    if (p == std::string::npos) throw ProtoError("bad typed value " + tok);
+    std::string t = tok.substr(0, p), v = tok.substr(p + 1);
+    if (t == "Bool") return nix::Variant(v != "0");
+    if (t == "Int32") return nix::Variant((int32_t) tokInt(v));
+    if (t == "UInt32") return nix::Variant((uint32_t) tokNat(v));
+    if (t == "Int64") return nix::Variant((int64_t) tokInt(v));
+    if (t == "UInt64") return nix::Variant((uint64_t) tokNat(v));
+    if (t == "Double") return nix::Variant(tokF64(v));
+    if (t == "String") return nix::Variant(unhexStr(v));
+    if (t == "Nothing") return nix::Variant();
+    throw ProtoError("bad value type " + t);
+}
+std::string variantTok(const nix::Variant &v) {
+    std::string t = nix::data_type_to_string(v.type()) + ":";
+    switch (v.type()) {
+    case nix::DataType::Bool: return t + (v.get<bool>() ? "1" : "0");
+    case nix::DataType::Int32: return t + std::to_string(v.get<int32_t>());
+    case nix::DataType::UInt32: return t + std::to_string(v.get<uint32_t>());
+    case nix::DataType::Int64: return t + std::to_string(v.get<int64_t>());
+    case nix::DataType::UInt64: return t + std::to_string(v.get<uint64_t>());
+    case nix::DataType::Double: return t + f64Tok(v.get<double>());
+    case nix::DataType::String: return t + hexStr(v.get<std::string>());
+    default: return t;
+    }
+}
+
 }  // namespace
 
 DRV_OP(ab_nd) {
@@ -151,5 +179,24 @@ DRV_OP(ab_fdim) {
         part([&]() { std::vector<double> t; d.ticks(t, col, true); return std::to_string(t.size()); });
         part([&]() { std::vector<std::string> t; d.ticks(t, col, true); return std::to_string(t.size()); });
         return out;
+    });
+}
+
+// ab_var <Type:v1> <Type:v2> : copy, assign across types, swap, self-assign, read as the wrong type
+//   => ok <a after swap> <b after swap> <c = copy of a, then assigned b> <wrong-type reads refused: n of 2>
+DRV_OP(ab_var) {
+    if (a.size() != 3) throw ProtoError("ab_var arity");
+    return guarded([&]() {
+        nix::Variant x = variantOf(a[1]), y = variantOf(a[2]);
+        nix::Variant c = x;      // copy
+        c = y;                   // assign across types (a String member owns its buffer)
+        c = c;                   // self-assignment
+        nix::Variant d(c);
+        x.swap(y);
+        int refused = 0;
+        try { if (x.type() != nix::DataType::String) x.get<std::string>(); else x.get<int32_t>(); } catch (const std::exception &) { refused++; }
+        try { if (y.type() != nix::DataType::Double) y.get<double>(); else y.get<bool>(); } catch (const std::exception &) { refused++; }
+        nix::Variant e; e = std::move(d);
+        return variantTok(x) + " " + variantTok(y) + " " + variantTok(e) + " " + std::to_string(refused);
     });
 }
